@@ -22,6 +22,7 @@ LEVEL_TEXT += (' The texts given to File::from_str, Parser::parse and execute ar
 LEVEL_TEXT += (' The variable set handed to the library is only ever added to in main.')
 
 
+LEVEL_TEXT += (" (C19.O) standard output is written only by main's print of the graph and by Graph::display_json.")
 def flag_of(e):
     e = strip(e)
     if e[0] == "call" and re.search(r"clap::ArgMatches::is_present$", e[1] or "") and len(e[3]) == 2:
@@ -242,6 +243,22 @@ def run(prog, rep):
     rep.check(okg, "C19.R5", "main :: --global", "", "globals.add(Identifier::from(k), Value::String(v.to_string()))? for k=v split at the first `=`", "--global handling changed")
     # E2.d
     # ---- A: option declarations (what clap is told) agree with how main reads them
+    # what goes to standard output is the graph and nothing else: the only writers of stdout are main's print of the pretty graph and
+    # Graph::display_json; DSL `print` statements and diagnostics go to standard error
+    rep.rule("C19.O", "standard output is written only by main (the pretty-printed graph) and Graph::display_json; no other code in the library or the CLI prints to stdout")
+    no_ = 0
+    for wf in sorted(prog.shape_fns(), key=lambda x: x.id):
+        if wf.body is None:
+            continue
+        for wb, wt in wf.body.calls():
+            d = callee_fn(wt).get("def", "") if callee_fn(wt) else ""
+            if not re.search(r"^std::io::(_print|stdout)$", d):
+                continue
+            no_ += 1
+            ok_site = (wf.crate.prefix != "tsg" and wf.name == "main" and d.endswith("_print")) or (wf.self_path == "tsg::graph::Graph" and wf.name == "display_json")
+            rep.check(ok_site, "C19.O", "%s :: %s" % (wf.id, d.rsplit("::", 1)[-1]), sp_str(wt["sp"]), "designated writer of standard output",
+                      "%s writes to standard output: text other than the graph (a `print` statement's line, a diagnostic) ends up in the pretty / JSON output" % wf.id)
+    rep.floor("C19.O", no_, 2, "writers of standard output")
     rep.rule("C19.A", "every option read with is_present is declared as a plain flag (no action, default or value), every option read with value_of/get_many as a "
                       "single-value option (takes_value(true); Append only for --global; no min/max/multiple values, delimiter or default): otherwise is_present is "
                       "always true or an option swallows the positional arguments")
